@@ -6,6 +6,8 @@ Lemmas about the promise machine (`RedunModel.Model.Promise`):
                the matching branch is either waiting in exactly one notification loop or has been invoked exactly
                once), preserved by every step and every top-level operation.
 -/
+import RedunModel.Model.Promise
+namespace RedunModel.Promise
 
 def status (s : State) (p : Nat) : Option Status := (s.heap[p]?).map (·.st)
 
@@ -13,7 +15,7 @@ def pick (b : Br) (pr : Prom) : List Cb := match b with | .res => pr.resolvers |
 
 theorem settle_cases (b : Br) (q : Nat) (v : Val) (s : State) :
     settle b q v s = s ∨ ∃ pr, s.heap[q]? = some pr ∧ pr.st = .pending ∧
-      settle b q v s = { s with heap := s.heap.set q ⟨.settled b v, [], []⟩,
+      settle b q v s = { s with heap := s.heap.set q ⟨.settled b v, [], [], pr.origin⟩,
                                 stack := .notify v (pick b pr) :: s.stack } := by
   unfold settle
   split
@@ -28,12 +30,12 @@ theorem thenOp_cases (p : Nat) (r j : Option Fn) (s : State) :
     (s.heap[p]? = none ∧ thenOp p r j s = emit .badRef s) ∨
     ∃ pr, s.heap[p]? = some pr ∧
       ((pr.st = .pending ∧ thenOp p r j s =
-          { s with heap := (s.heap ++ [({} : Prom)]).set p ⟨.pending, pr.resolvers ++ [mkCb s.regs.length .res r s.heap.length],
-                                                             pr.rejectors ++ [mkCb s.regs.length .rej j s.heap.length]⟩,
-                   regs := s.regs ++ [p] }) ∨
+          { s with heap := (s.heap ++ [({ origin := .chained } : Prom)]).set p ⟨.pending, pr.resolvers ++ [mkCb s.regs.length .res r s.heap.length],
+                                                             pr.rejectors ++ [mkCb s.regs.length .rej j s.heap.length], pr.origin⟩,
+                   regs := s.regs ++ [p], during := s.during ++ [waiting p s] }) ∨
        (∃ b v, pr.st = .settled b v ∧ thenOp p r j s =
-          { s with heap := (s.heap ++ [({} : Prom)]).set p ⟨.settled b v, [], []⟩,
-                   regs := s.regs ++ [p],
+          { s with heap := (s.heap ++ [({ origin := .chained } : Prom)]).set p ⟨.settled b v, [], [], pr.origin⟩,
+                   regs := s.regs ++ [p], during := s.during ++ [waiting p s],
                    stack := .notify v (pick b pr ++ [mkCb s.regs.length b (match b with | .res => r | .rej => j) s.heap.length]) :: s.stack })) := by
   unfold thenOp
   cases hp : s.heap[p]? with
@@ -46,26 +48,45 @@ theorem thenOp_cases (p : Nat) (r j : Option Fn) (s : State) :
       refine .inr ⟨b, v, rfl, ?_⟩
       cases b <;> simp [hst, pick]
 
-/-- settled statuses are kept and the heap only grows -/
-def Ext (s s' : State) : Prop :=
-  s.heap.length ≤ s'.heap.length ∧ ∀ p b v, status s p = some (.settled b v) → status s' p = some (.settled b v)
+def origin (s : State) (p : Nat) : Option Origin := (s.heap[p]?).map (·.origin)
 
-theorem Ext.refl (s : State) : Ext s s := ⟨Nat.le_refl _, fun _ _ _ h => h⟩
+/-- settled statuses are kept, the heap only grows, promises keep their origin -/
+structure Ext (s s' : State) : Prop where
+  len : s.heap.length ≤ s'.heap.length
+  keep : ∀ p b v, status s p = some (.settled b v) → status s' p = some (.settled b v)
+  orig : ∀ p o, origin s p = some o → origin s' p = some o
+
+theorem Ext.refl (s : State) : Ext s s := ⟨Nat.le_refl _, fun _ _ _ h => h, fun _ _ h => h⟩
 theorem Ext.trans {a b c : State} (h1 : Ext a b) (h2 : Ext b c) : Ext a c :=
-  ⟨Nat.le_trans h1.1 h2.1, fun p b' v h => h2.2 p b' v (h1.2 p b' v h)⟩
+  ⟨Nat.le_trans h1.1 h2.1, fun p b' v h => h2.2 p b' v (h1.2 p b' v h), fun p o h => h2.3 p o (h1.3 p o h)⟩
 theorem Ext.of_heap_eq {s s' : State} (h : s'.heap = s.heap) : Ext s s' := by
-  unfold Ext status; rw [h]; exact ⟨Nat.le_refl _, fun _ _ _ h => h⟩
+  refine ⟨?_, ?_, ?_⟩
+  · rw [h]; exact Nat.le_refl _
+  · unfold status; rw [h]; exact fun _ _ _ h => h
+  · unfold origin; rw [h]; exact fun _ _ h => h
+
+theorem lt_of_getElem?_map {α β} {l : List α} {f : α → β} {i : Nat} {y : β} (h : (l[i]?).map f = some y) : i < l.length := by
+  cases h' : l[i]? with
+  | none => simp [h'] at h
+  | some x => exact (List.getElem?_eq_some_iff.mp h').1
 
 theorem Ext_settle (b q v) (s : State) : Ext s (settle b q v s) := by
   rcases settle_cases b q v s with h | ⟨pr, hq, hp, h⟩
   · rw [h]; exact Ext.refl s
   · rw [h]
-    refine ⟨by simp, fun p b' v' hs => ?_⟩
-    unfold status at *
-    simp only [List.getElem?_set]
-    by_cases hpq : q = p
-    · subst hpq; simp [hq, hp] at hs
-    · simpa [hpq] using hs
+    refine ⟨by simp, fun p b' v' hs => ?_, fun p o hs => ?_⟩
+    · unfold status at *
+      simp only [List.getElem?_set]
+      by_cases hpq : q = p
+      · subst hpq; simp [hq, hp] at hs
+      · simpa [hpq] using hs
+    · unfold origin at *
+      simp only [List.getElem?_set]
+      by_cases hpq : q = p
+      · subst hpq
+        have hlt : q < s.heap.length := (List.getElem?_eq_some_iff.mp hq).1
+        simp [hq] at hs; simp [hlt, hs]
+      · simpa [hpq] using hs
 
 theorem Ext_thenOp (p r j) (s : State) : Ext s (thenOp p r j s) := by
   rcases thenOp_cases p r j s with ⟨_, h⟩ | ⟨pr, hp, ⟨hst, h⟩ | ⟨b, v, hst, h⟩⟩
@@ -73,41 +94,50 @@ theorem Ext_thenOp (p r j) (s : State) : Ext s (thenOp p r j s) := by
   all_goals
     rw [h]
     have hlt : p < s.heap.length := (List.getElem?_eq_some_iff.mp hp).1
-    refine ⟨by simp, fun p' b' v' hs => ?_⟩
-    unfold status at *
-    have hlt' : p' < s.heap.length := by
-      cases h' : s.heap[p']? with
-      | none => simp [h'] at hs
-      | some x => exact (List.getElem?_eq_some_iff.mp h').1
-    simp only [List.getElem?_set]
-    by_cases hpq : p = p'
-    · subst hpq; simp [hp] at hs; rw [hst] at hs
-      cases hs
-      try (simp; omega)
-    · simp [hpq, List.getElem?_append_left hlt']; simpa using hs
+    refine ⟨by simp, fun p' b' v' hs => ?_, fun p' o hs => ?_⟩
+    · unfold status at *
+      have hlt' : p' < s.heap.length := lt_of_getElem?_map hs
+      simp only [List.getElem?_set]
+      by_cases hpq : p = p'
+      · subst hpq; simp [hp] at hs; rw [hst] at hs
+        cases hs
+        try (simp; omega)
+      · simp [hpq, List.getElem?_append_left hlt']; simpa using hs
+    · unfold origin at *
+      have hlt' : p' < s.heap.length := lt_of_getElem?_map hs
+      simp only [List.getElem?_set]
+      by_cases hpq : p = p'
+      · subst hpq; simp [hp] at hs; simp [hs]; omega
+      · simp [hpq, List.getElem?_append_left hlt']; simpa using hs
 
 theorem Ext_push (f) (s : State) : Ext s (push f s) := Ext.of_heap_eq rfl
 theorem Ext_emit (e) (s : State) : Ext s (emit e s) := Ext.of_heap_eq rfl
 
-theorem Ext_newProm (s : State) : Ext s (newProm s) := by
-  refine ⟨by simp [newProm], fun p b v hs => ?_⟩
-  unfold status newProm at *
-  have hlt : p < s.heap.length := by
-    cases h' : s.heap[p]? with
-    | none => simp [h'] at hs
-    | some x => exact (List.getElem?_eq_some_iff.mp h').1
-  simpa [List.getElem?_append_left hlt] using hs
+theorem Ext_newProm (o) (s : State) : Ext s (newProm o s) := by
+  refine ⟨by simp [newProm], fun p b v hs => ?_, fun p o' hs => ?_⟩
+  · unfold status newProm at *
+    have hlt : p < s.heap.length := lt_of_getElem?_map hs
+    simpa [List.getElem?_append_left hlt] using hs
+  · unfold origin newProm at *
+    have hlt : p < s.heap.length := lt_of_getElem?_map hs
+    simpa [List.getElem?_append_left hlt] using hs
 
 theorem Ext_finish (r q) (s : State) : Ext s (finish r q s) := by
   unfold finish
   split
-  · exact Ext_thenOp _ _ _ _
+  · exact (Ext_emit _ s).trans (Ext_thenOp _ _ _ _)
   · exact Ext_settle _ _ _ _
+
+theorem Ext_note (a) (s : State) : Ext s (note a s) := by
+  unfold note; split
+  · exact Ext.refl s
+  · exact Ext.of_heap_eq rfl
 
 theorem Ext_callFn (f q v) (s : State) : Ext s (callFn f q v s) := by
   unfold callFn
   split
   · exact Ext.of_heap_eq rfl
+  · exact ((Ext_emit _ s).trans (Ext_push _ _)).trans (Ext_settle _ _ _ _)
   · exact (Ext_push _ s).trans (Ext_settle _ _ _ _)
   · split
     · exact Ext.refl s
@@ -131,30 +161,29 @@ theorem Ext_invoke (c v) (s : State) : Ext s (invoke c v s) := by
   · exact (Ext_emit _ s).trans (Ext_settle _ _ _ _)
   · exact (Ext_emit _ s).trans (Ext_callFn _ _ _ _)
 
+theorem Ext_collect (m ps) (s : State) : Ext s (collect m ps s) := by
+  unfold collect
+  split
+  · dsimp only
+    split
+    · refine (Ext_newProm (.coll s.colls.length) s).trans ?_; refine Ext.trans ?_ (Ext_settle _ _ _ _); exact Ext.of_heap_eq rfl
+    · exact (Ext_newProm (.coll s.colls.length) s).trans (Ext.of_heap_eq rfl)
+  · exact Ext_emit _ _
+
 theorem Ext_act (arg a) (s : State) : Ext s (act arg a s) := by
   unfold act
   split
   · exact Ext_thenOp _ _ _ _
   · split
-    · exact Ext_settle _ _ _ _
+    · exact (Ext_emit _ s).trans (Ext_settle _ _ _ _)
     · exact Ext_emit _ _
   · split
-    · exact Ext_settle _ _ _ _
+    · exact (Ext_emit _ s).trans (Ext_settle _ _ _ _)
     · exact Ext_emit _ _
-  · exact Ext_newProm s
-  · exact (Ext_newProm s).trans (Ext_push _ _)
-  · split
-    · dsimp only
-      split
-      · refine (Ext_newProm s).trans ?_; refine Ext.trans ?_ (Ext_settle _ _ _ _); exact Ext.of_heap_eq rfl
-      · exact (Ext_newProm s).trans (Ext.of_heap_eq rfl)
-    · exact Ext_emit _ _
-  · split
-    · dsimp only
-      split
-      · refine (Ext_newProm s).trans ?_; refine Ext.trans ?_ (Ext_settle _ _ _ _); exact Ext.of_heap_eq rfl
-      · exact (Ext_newProm s).trans (Ext.of_heap_eq rfl)
-    · exact Ext_emit _ _
+  · exact Ext_newProm _ s
+  · exact (Ext_newProm _ s).trans (Ext_push _ _)
+  · exact Ext_collect _ _ _
+  · exact Ext_collect _ _ _
 
 theorem Ext_kont (arg k) (s : State) : Ext s (kont arg k s) := by
   unfold kont
@@ -180,9 +209,7 @@ theorem Ext_step {s s' : State} (h : step s = some s') : Ext s s' := by
     · exact pop.trans (Ext_kont _ _ _)
     · exact pop.trans ((Ext_push _ _).trans (Ext_act _ _ _))
     · exact pop
-    · exact pop.trans ((Ext_push _ _).trans (Ext_thenOp _ _ _ _))
-    · exact pop
-    · exact pop.trans ((Ext_push _ _).trans (Ext_thenOp _ _ _ _))
+    · exact pop.trans (((Ext_note _ _).trans (Ext_push _ _)).trans (Ext_thenOp _ _ _ _))
 
 /-! ### accounting of registered callbacks -/
 
@@ -317,7 +344,7 @@ theorem Inv_settle {s : State} (I : Inv s) (b q v) : Inv (settle b q v s) := by
     rcases hm with hm | hm
     · cases hm
       obtain ⟨h1, h2⟩ := I.owner q pr hq b c hc
-      refine ⟨q, ⟨.settled b v, [], []⟩, h2, by simp [hqlt], by rw [h1]⟩
+      refine ⟨q, ⟨.settled b v, [], [], pr.origin⟩, h2, by simp [hqlt], by rw [h1]⟩
     · exact hmono (I.frames v' todo hm c hc)
   · intro rid b' v' hm; exact hmono (I.logs rid b' v' hm)
   · intro rid p pr' hr hp
@@ -365,9 +392,9 @@ theorem getElem?_snoc_eq_some {α} (l : List α) (x y : α) (i : Nat) :
       | zero => omega
       | succ k => simp [h2]
 
-theorem heap_then_lookup (h : List Prom) (p : Nat) (x : Prom) (hplt : p < h.length) (p' : Nat) (pr' : Prom) :
-    ((h ++ [({} : Prom)]).set p x)[p']? = some pr' ↔
-      (p' = p ∧ pr' = x) ∨ (p' ≠ p ∧ h[p']? = some pr') ∨ (p' = h.length ∧ pr' = {}) := by
+theorem heap_then_lookup (h : List Prom) (p : Nat) (x x0 : Prom) (hplt : p < h.length) (p' : Nat) (pr' : Prom) :
+    ((h ++ [x0]).set p x)[p']? = some pr' ↔
+      (p' = p ∧ pr' = x) ∨ (p' ≠ p ∧ h[p']? = some pr') ∨ (p' = h.length ∧ pr' = x0) := by
   rw [List.getElem?_set]
   by_cases hpp : p = p'
   · subst hpp
@@ -393,7 +420,7 @@ theorem heap_then_lookup (h : List Prom) (p : Nat) (x : Prom) (hplt : p < h.leng
 theorem mkCb_rid (rid b f q) : (mkCb rid b f q).rid = rid := rfl
 theorem mkCb_br (rid b f q) : (mkCb rid b f q).br = b := rfl
 
-theorem pick_empty (b) : pick b ({} : Prom) = [] := by cases b <;> rfl
+theorem pick_empty (b o) : pick b ({ origin := o } : Prom) = [] := by cases b <;> rfl
 
 theorem Inv_thenOp {s : State} (I : Inv s) (p r j) : Inv (thenOp p r j s) := by
   have hx : Ext s (thenOp p r j s) := Ext_thenOp p r j s
@@ -427,7 +454,7 @@ theorem Inv_thenOp {s : State} (I : Inv s) (p r j) : Inv (thenOp p r j s) := by
       have := hregs_lt rid p' hr
       simp only [List.length_set, List.length_append, List.length_singleton]; omega
     · intro p' pr' hp' b' c hc
-      rcases (heap_then_lookup _ _ _ hplt _ _).mp hp' with ⟨rfl, rfl⟩ | ⟨hne, hp'⟩ | ⟨rfl, rfl⟩
+      rcases (heap_then_lookup _ _ _ _ hplt _ _).mp hp' with ⟨rfl, rfl⟩ | ⟨hne, hp'⟩ | ⟨rfl, rfl⟩
       · have hc' : c ∈ pick b' pr ∨ ∃ f, c = mkCb s.regs.length b' f s.heap.length := by
           cases b' <;> simp only [pick, List.mem_append, List.mem_singleton] at hc ⊢ <;> rcases hc with hc | hc
           all_goals first | exact .inl hc | exact .inr ⟨_, hc⟩
@@ -437,7 +464,7 @@ theorem Inv_thenOp {s : State} (I : Inv s) (p r j) : Inv (thenOp p r j s) := by
       · have := I.owner p' pr' hp' b' c hc; exact ⟨this.1, hregs _ _ this.2⟩
       · rw [pick_empty] at hc; cases hc
     · intro p' pr' b' v' hp' hst'
-      rcases (heap_then_lookup _ _ _ hplt _ _).mp hp' with ⟨rfl, rfl⟩ | ⟨hne, hp'⟩ | ⟨rfl, rfl⟩
+      rcases (heap_then_lookup _ _ _ _ hplt _ _).mp hp' with ⟨rfl, rfl⟩ | ⟨hne, hp'⟩ | ⟨rfl, rfl⟩
       · cases hst'
       · exact I.clean p' pr' b' v' hp' hst'
       · exact ⟨rfl, rfl⟩
@@ -445,7 +472,7 @@ theorem Inv_thenOp {s : State} (I : Inv s) (p r j) : Inv (thenOp p r j s) := by
     · intro rid b' v' hm; exact hmono (I.logs rid b' v' hm)
     · intro rid p' pr' hr hp'
       have hr' := (getElem?_snoc_eq_some _ _ _ _).mp hr
-      rcases (heap_then_lookup _ _ _ hplt _ _).mp hp' with ⟨rfl, rfl⟩ | ⟨hne, hp'⟩ | ⟨rfl, rfl⟩
+      rcases (heap_then_lookup _ _ _ _ hplt _ _).mp hp' with ⟨rfl, rfl⟩ | ⟨hne, hp'⟩ | ⟨rfl, rfl⟩
       · refine ⟨fun _ => ?_, fun b' v' h' => by cases h'⟩
         simp only [cnt_append, cnt_single, mkCb_rid, mkCb_br]
         rcases hr' with hr' | ⟨rfl, _⟩
@@ -470,12 +497,12 @@ theorem Inv_thenOp {s : State} (I : Inv s) (p r j) : Inv (thenOp p r j s) := by
       have := hregs_lt rid p' hr
       simp only [List.length_set, List.length_append, List.length_singleton]; omega
     · intro p' pr' hp' b' c hc
-      rcases (heap_then_lookup _ _ _ hplt _ _).mp hp' with ⟨rfl, rfl⟩ | ⟨hne, hp'⟩ | ⟨rfl, rfl⟩
+      rcases (heap_then_lookup _ _ _ _ hplt _ _).mp hp' with ⟨rfl, rfl⟩ | ⟨hne, hp'⟩ | ⟨rfl, rfl⟩
       · cases b' <;> simp [pick] at hc
       · have := I.owner p' pr' hp' b' c hc; exact ⟨this.1, hregs _ _ this.2⟩
       · rw [pick_empty] at hc; cases hc
     · intro p' pr' b' v' hp' hst'
-      rcases (heap_then_lookup _ _ _ hplt _ _).mp hp' with ⟨rfl, rfl⟩ | ⟨hne, hp'⟩ | ⟨rfl, rfl⟩
+      rcases (heap_then_lookup _ _ _ _ hplt _ _).mp hp' with ⟨rfl, rfl⟩ | ⟨hne, hp'⟩ | ⟨rfl, rfl⟩
       · exact ⟨rfl, rfl⟩
       · exact I.clean p' pr' b' v' hp' hst'
       · exact ⟨rfl, rfl⟩
@@ -486,15 +513,15 @@ theorem Inv_thenOp {s : State} (I : Inv s) (p r j) : Inv (thenOp p r j s) := by
         rw [hpick] at hc
         simp only [List.nil_append, List.mem_singleton] at hc
         subst hc
-        refine ⟨p, ⟨.settled b v, [], []⟩, ?_, ?_, rfl⟩
+        refine ⟨p, ⟨.settled b v, [], [], pr.origin⟩, ?_, ?_, rfl⟩
         · simp [mkCb_rid]
-        · exact (heap_then_lookup _ _ _ hplt _ _).mpr (.inl ⟨rfl, rfl⟩)
+        · exact (heap_then_lookup _ _ _ _ hplt _ _).mpr (.inl ⟨rfl, rfl⟩)
       · exact hmono (I.frames v' todo hm c hc)
     · intro rid b' v' hm; exact hmono (I.logs rid b' v' hm)
     · intro rid p' pr' hr hp'
       have hr' := (getElem?_snoc_eq_some _ _ _ _).mp hr
       simp only [stackCnt_cons, frameCnt, hpick, List.nil_append, cnt_single, mkCb_rid, mkCb_br]
-      rcases (heap_then_lookup _ _ _ hplt _ _).mp hp' with ⟨rfl, rfl⟩ | ⟨hne, hp'⟩ | ⟨rfl, rfl⟩
+      rcases (heap_then_lookup _ _ _ _ hplt _ _).mp hp' with ⟨rfl, rfl⟩ | ⟨hne, hp'⟩ | ⟨rfl, rfl⟩
       · refine ⟨fun h' => (by cases h'), ?_⟩
         intro b' v' h'
         cases h'
@@ -513,8 +540,8 @@ theorem Inv_thenOp {s : State} (I : Inv s) (p r j) : Inv (thenOp p r j s) := by
 
 theorem Inv.congr {s s' : State} (I : Inv s) (h1 : s'.heap = s.heap) (h2 : s'.regs = s.regs)
     (h3 : s'.stack = s.stack) (h4 : s'.log = s.log) : Inv s' := by
-  obtain ⟨heap, alls, waits, regs, stack, log⟩ := s
-  obtain ⟨heap', alls', waits', regs', stack', log'⟩ := s'
+  obtain ⟨heap, colls, regs, during, stack, log⟩ := s
+  obtain ⟨heap', colls', regs', during', stack', log'⟩ := s'
   simp only at h1 h2 h3 h4
   subst h1 h2 h3 h4
   exact ⟨I.1, I.2, I.3, I.4, I.5, I.6⟩
@@ -567,9 +594,9 @@ theorem Inv.emit {s : State} (I : Inv s) (e : Event) (he : ∀ rid b v, e ≠ .i
     simp only [Promise.emit, calls_cons, hz]
     simpa using this
 
-theorem Inv_newProm {s : State} (I : Inv s) : Inv (newProm s) := by
-  have hx := Ext_newProm s
-  have hmono : ∀ {rid b' v'}, SettledAs s rid b' v' → SettledAs (newProm s) rid b' v' :=
+theorem Inv_newProm {s : State} (I : Inv s) (o) : Inv (newProm o s) := by
+  have hx := Ext_newProm o s
+  have hmono : ∀ {rid b' v'}, SettledAs s rid b' v' → SettledAs (newProm o s) rid b' v' :=
     fun h => h.mono hx (fun _ _ h => h)
   refine ⟨?_, ?_, ?_, ?_, ?_, ?_⟩
   · intro rid p hr
@@ -617,26 +644,31 @@ theorem Inv.notify_step {s : State} (I : Inv s) {v c todo rest} (hs : s.stack = 
     · have hc' : ¬ (c.rid == rid && c.br == b) = true := by simpa using hc
       simp [hc, hc'] at this ⊢; omega
 
-theorem Inv.setAlls {s : State} (I : Inv s) (a) : Inv { s with alls := a } := I.congr rfl rfl rfl rfl
-theorem Inv.setWaits {s : State} (I : Inv s) (w) : Inv { s with waits := w } := I.congr rfl rfl rfl rfl
+theorem Inv.setColls {s : State} (I : Inv s) (a) : Inv { s with colls := a } := I.congr rfl rfl rfl rfl
+
+theorem Inv_note {s : State} (I : Inv s) (a) : Inv (note a s) := by
+  unfold note; split
+  · exact I
+  · exact I.setColls _
 
 theorem Inv_finish {s : State} (I : Inv s) (r q) : Inv (finish r q s) := by
   unfold finish
   split
-  · exact Inv_thenOp I _ _ _
+  · exact Inv_thenOp (I.emit _ (by intros; simp)) _ _ _
   · exact Inv_settle I _ _ _
 
 theorem Inv_callFn {s : State} (I : Inv s) (f q v) : Inv (callFn f q v s) := by
   unfold callFn
   split
   · exact (I.emit _ (by intros; simp)).push _ (by intros; simp)
+  · exact Inv_settle ((I.emit _ (by intros; simp)).push _ (by intros; simp)) _ _ _
   · exact Inv_settle (I.push _ (by intros; simp)) _ _ _
   · split
     · exact I
     · dsimp only
       split
-      · exact Inv_settle ((I.setAlls _).push _ (by intros; simp)) _ _ _
-      · exact (I.setAlls _).push _ (by intros; simp)
+      · exact Inv_settle ((I.setColls _).push _ (by intros; simp)) _ _ _
+      · exact (I.setColls _).push _ (by intros; simp)
   · split
     · exact I
     · exact Inv_settle (I.push _ (by intros; simp)) _ _ _
@@ -644,8 +676,8 @@ theorem Inv_callFn {s : State} (I : Inv s) (f q v) : Inv (callFn f q v s) := by
     · exact I
     · dsimp only
       split
-      · exact Inv_settle ((I.setWaits _).push _ (by intros; simp)) _ _ _
-      · exact (I.setWaits _).push _ (by intros; simp)
+      · exact Inv_settle ((I.setColls _).push _ (by intros; simp)) _ _ _
+      · exact (I.setColls _).push _ (by intros; simp)
 
 theorem Inv_invokeBody {s : State} (I : Inv s) (c v) : Inv (invokeBody c v s) := by
   unfold invokeBody
@@ -653,30 +685,29 @@ theorem Inv_invokeBody {s : State} (I : Inv s) (c v) : Inv (invokeBody c v s) :=
   · exact Inv_settle I _ _ _
   · exact Inv_callFn I _ _ _
 
+theorem Inv_collect {s : State} (I : Inv s) (m ps) : Inv (collect m ps s) := by
+  unfold collect
+  split
+  · dsimp only
+    split
+    · exact Inv_settle ((Inv_newProm I _).setColls _) _ _ _
+    · exact ((Inv_newProm I _).setColls _).push _ (by intros; simp)
+  · exact I.emit _ (by intros; simp)
+
 theorem Inv_act {s : State} (I : Inv s) (arg a) : Inv (act arg a s) := by
   unfold act
   split
   · exact Inv_thenOp I _ _ _
   · split
-    · exact Inv_settle I _ _ _
+    · exact Inv_settle (I.emit _ (by intros; simp)) _ _ _
     · exact I.emit _ (by intros; simp)
   · split
-    · exact Inv_settle I _ _ _
+    · exact Inv_settle (I.emit _ (by intros; simp)) _ _ _
     · exact I.emit _ (by intros; simp)
-  · exact Inv_newProm I
-  · exact (Inv_newProm I).push _ (by intros; simp)
-  · split
-    · dsimp only
-      split
-      · exact Inv_settle ((Inv_newProm I).setAlls _) _ _ _
-      · exact ((Inv_newProm I).setAlls _).push _ (by intros; simp)
-    · exact I.emit _ (by intros; simp)
-  · split
-    · dsimp only
-      split
-      · exact Inv_settle ((Inv_newProm I).setWaits _) _ _ _
-      · exact ((Inv_newProm I).setWaits _).push _ (by intros; simp)
-    · exact I.emit _ (by intros; simp)
+  · exact Inv_newProm I _
+  · exact (Inv_newProm I _).push _ (by intros; simp)
+  · exact Inv_collect I _ _
+  · exact Inv_collect I _ _
 
 theorem Inv_kont {s : State} (I : Inv s) (arg k) : Inv (kont arg k s) := by
   unfold kont
@@ -701,9 +732,7 @@ theorem Inv_step {s s' : State} (I : Inv s) (h : step s = some s') : Inv s' := b
     · exact Inv_kont (I.pop hst (by intros; rfl)) _ _
     · exact Inv_act ((I.pop hst (by intros; rfl)).push _ (by intros; simp)) _ _
     · exact I.pop hst (by intros; rfl)
-    · exact Inv_thenOp ((I.pop hst (by intros; rfl)).push _ (by intros; simp)) _ _ _
-    · exact I.pop hst (by intros; rfl)
-    · exact Inv_thenOp ((I.pop hst (by intros; rfl)).push _ (by intros; simp)) _ _ _
+    · exact Inv_thenOp ((Inv_note (I.pop hst (by intros; rfl)) _).push _ (by intros; simp)) _ _ _
 
 theorem Inv_init : Inv init := by
   refine ⟨?_, ?_, ?_, ?_, ?_, ?_⟩ <;> simp [init]
